@@ -102,7 +102,7 @@ func genSupCase(r *simkit.Rand, tier string, intensityStudy bool) *SupCase {
 		default:
 			ev.Kind = "exit"
 		}
-		if c.Type == "sofo" && (ev.Kind == "start" || ev.Kind == "enable" || ev.Kind == "disable") {
+		if c.Type == "sofo" && ev.Kind == "start" {
 			ev.Kind = "sofostart"
 		}
 		c.Events = append(c.Events, ev)
@@ -186,12 +186,25 @@ func runSeparated(prop string, e *simkit.Env, c *SupCase) {
 			m.exit(i, ev.Reason, now)
 		case "disable":
 			m.disabled[i] = true
-			m.exit(i, "shutdown", now)
+			if c.Type == "sofo" {
+				// every running instance of the spec is stopped and none is started again
+				var keep []int
+				for _, sp := range m.inst {
+					if sp != i {
+						keep = append(keep, sp)
+					}
+				}
+				m.inst = keep
+			} else {
+				m.exit(i, "shutdown", now)
+			}
 			e.Probe("management-call")
 		case "enable":
 			m.disabled[i] = false
-			m.running[i] = true
-			m.inc[i]++
+			if c.Type != "sofo" {
+				m.running[i] = true
+				m.inc[i]++
+			}
 			e.Probe("management-call")
 		case "start":
 			m.running[i] = true
